@@ -147,6 +147,9 @@ structure World where
   handles -/
   twinSw : SWorld V := []
   twinIdx : List (Nat × Nat) := []
+  /-- builders into which whole nodes were pushed (`push_node`): the property says nothing about
+  pushing single values after that -/
+  bmixed : List Nat := []
   /-- update maps used directly (`m…` operations): the model's `UMap` and the plain association -/
   maps : List (Nat × UMap V) := []
   smaps : List (Nat × SMap) := []
@@ -1133,7 +1136,7 @@ def stepCore (w : World) (line : String) : World × Out :=
     match parseNat b, parseNat d, parseNat l with
     | some b, some d, some l =>
       match Builder.new pf d l with
-      | .ok bl => ({ w with builders := slotSet w.builders b bl,
+      | .ok bl => ({ w with builders := slotSet w.builders b bl, bmixed := w.bmixed.filter (· ≠ b),
                             sbuilders := slotSet w.sbuilders b ⟨[], d, l⟩ }, ("ok", "ok"))
       | .error e => (w, (fmtErr e, "err *"))
     | _, _, _ => badop
@@ -1143,7 +1146,7 @@ def stepCore (w : World) (line : String) : World × Out :=
       match slotGet w.builders b, slotGet w.sbuilders b with
       | some bl, some sb =>
         let cap := 2 ^ (sb.depth + pdOf pf)
-        let sp := if sb.xs.length ≥ cap then "err *" else "ok"
+        let sp := if w.bmixed.contains b then "*" else if sb.xs.length ≥ cap then "err *" else "ok"
         match bl.push z w.heap v with
         | .ok (bl', heap) =>
           ({ w with heap := heap, builders := slotSet w.builders b bl',
@@ -1157,6 +1160,7 @@ def stepCore (w : World) (line : String) : World × Out :=
     | some b, some t, some len =>
       match slotGet w.builders b, slotGet w.sbuilders b, slotGet w.trees t, slotGet w.strees t with
       | some bl, some sb, some tr, some st =>
+        let w := { w with bmixed := b :: w.bmixed }
         match bl.pushNode z w.heap tr len with
         | .ok (bl', heap) =>
           ({ w with heap := heap, builders := slotSet w.builders b bl',
